@@ -368,6 +368,12 @@ pub fn symptom_of(section: &str, a: &Option<String>, b: &Option<String>) -> Stri
     let any = a.as_ref().or(b.as_ref()).cloned().unwrap_or_default();
     if section.starts_with("diag:") {
         let code = any.split_whitespace().nth(1).unwrap_or("?").to_string();
+        if let (Some(a), Some(b)) = (a, b) {
+            // same place and code, only the message differs: which type the message renders
+            if a != b && (a.contains("field") || b.contains("field")) {
+                return "global-type-in-diag".into();
+            }
+        }
         return match code.as_str() {
             "deprecated" => "deprecated-diag".into(),
             "undefined-field" => "undefined-field-diag".into(),
@@ -389,7 +395,28 @@ pub fn symptom_of(section: &str, a: &Option<String>, b: &Option<String>) -> Stri
             return "hover-doc".into();
         }
         if pa.0 != pb.0 {
-            return if is_global { "global-type".into() } else { format!("type-of:{tok}") };
+            if is_global {
+                return "global-type".into();
+            }
+            if tok == "value" {
+                // `x.value` on a required module / bound class: follows the resolution of the field
+                return "required-field-type".into();
+            }
+            if tok.starts_with("field") {
+                // `G.fieldK`: a member of a global table
+                return "global-member-type".into();
+            }
+            // only the rendered member list `{ … }` of the type differs
+            let strip = |t: &str| -> String {
+                match (t.find('{'), t.rfind('}')) {
+                    (Some(i), Some(j)) if i < j => format!("{}{}", t[..i].trim(), t[j + 1..].trim()),
+                    _ => t.trim().to_string(),
+                }
+            };
+            if strip(&pa.0) == strip(&pb.0) {
+                return "type-members".into();
+            }
+            return format!("type-of:{tok}");
         }
         return if is_global { "global-decl".into() } else { format!("decl-of:{tok}") };
     }
